@@ -159,4 +159,90 @@ theorem C10_partial (b32 down : Codec) (hb : b32.Good) (hd : down.Good)
   | aaaa => simp [C10_region] at hreg
   | a => simp [C10_region] at hreg
 
+/-! ### reported errors deliver nothing -/
+
+/-- **C10, wrap errors are reported.**  When WrapDnsResponse returns an error (A: more than 255 records;
+    CNAME / MX: ErrTooLong) the outcome is that error; nothing is decoded. -/
+theorem C10_error_reported_wrap (b32 down : Codec) (t : RRType) (domain : List Nat) (r : Resp)
+    (h : wrap t domain (encodeResp b32 down r) = none) :
+    roundTrip b32 down t domain r = .encError := by
+  simp only [roundTrip, h]
+
+/-- **C10, pack / unpack errors are reported.**  When a record does not survive miekg's Pack/Unpack
+    (A/AAAA not 4/16 bytes, label over 63, name over 255, TXT string over 255) the outcome is that
+    error; the client never sees a payload. -/
+theorem C10_error_reported_wire (b32 down : Codec) (t : RRType) (domain : List Nat) (r : Resp)
+    (answers : List RR) (e : WireErr)
+    (h1 : wrap t domain (encodeResp b32 down r) = some answers)
+    (h2 : answersOverWire answers = .error e) :
+    roundTrip b32 down t domain r = .packError ∨ roundTrip b32 down t domain r = .unpackError := by
+  cases hq : questionOk domain with
+  | false => left; simp only [roundTrip, h1, hq, Bool.not_false, if_true]
+  | true =>
+    cases e with
+    | pack => left; simp only [roundTrip, h1, hq, h2, Bool.not_true, Bool.false_eq_true, if_false]
+    | unpack => right; simp only [roundTrip, h1, hq, h2, Bool.not_true, Bool.false_eq_true, if_false]
+
+/-! ### witnesses (kernel-evaluated on the executable model; each is a corpus line for the real code) -/
+
+theorem raw_good : raw.Good := ⟨fun _ _ => rfl⟩
+
+/-- A records: an 11-byte response (version reply, Base32) leaves a 3-byte last record: `overflow packing a`.
+    Reported error, no corruption. -/
+theorem C10_witness_a_residue :
+    roundTrip base32 base32 .a [97, 46, 98] (.version 1 2 none) = .packError := by decide
+
+/-- AAAA records: same, the last record is not 16 bytes. -/
+theorem C10_witness_aaaa_residue :
+    roundTrip base32 base32 .aaaa [97, 46, 98] (.version 1 2 none) = .packError := by decide
+
+set_option maxRecDepth 8000 in
+/-- SRV: the target is one undotted label; 40 payload bytes make it longer than 63.  Reported error. -/
+theorem C10_witness_srv_label :
+    roundTrip base32 base32 .srv [97, 46, 98]
+      (.packet none 1 (some (2, List.replicate 40 7))) = .packError := by decide
+
+/-- Raw over CNAME: the payload byte '.' is taken as a label separator and silently disappears —
+    the client decodes a *different* packet and no error is reported.  So `C10_full` does not hold. -/
+theorem C10_witness_raw_over_names : ¬ C10_full := by
+  intro h
+  have hr : RespOk (.packet none 1 (some (2, [65, 46, 66]))) := by
+    unfold RespOk
+    refine ⟨fun e he => (by cases he), (by decide), ?_, fun he => (by cases he)⟩
+    intro p hp; cases hp; exact ⟨by decide, by decide⟩
+  have := h raw raw raw_good raw_good .cname [97, 46, 98] _ hr (by decide)
+  have hv : roundTrip raw raw .cname [97, 46, 98] (.packet none 1 (some (2, [65, 46, 66])))
+      = .ok 1 8 (.packet none 1 (some (2, [65, 66]))) := by decide
+  rw [hv] at this
+  exact absurd this (by decide)
+
+/-! ### non-vacuity -/
+
+/-- the hypotheses of `C10_partial` are satisfiable together (Raw over NULL, TXT and PRIVATE; the TXT
+    payload contains '"', '\', NUL and a high byte, i.e. everything miekg escapes) -/
+example : ∀ t ∈ [RRType.null, RRType.txt, RRType.priv],
+    roundTrip raw raw t [97, 46, 98] (.packet none 1 (some (2, [34, 92, 0, 250, 46])))
+      = .ok 1 11 (.packet none 1 (some (2, [34, 92, 0, 250, 46]))) := by
+  intro t ht
+  have hr : RespOk (.packet none 1 (some (2, [34, 92, 0, 250, 46]))) := by
+    unfold RespOk
+    refine ⟨fun e he => (by cases he), (by decide), ?_, fun he => (by cases he)⟩
+    intro p hp; cases hp; exact ⟨by decide, by decide⟩
+  have hreg : C10_region t (encodeResp raw raw (.packet none 1 (some (2, [34, 92, 0, 250, 46])))).length = true := by
+    simp at ht; rcases ht with rfl | rfl | rfl <;> decide
+  exact C10_partial raw raw raw_good raw_good t _ _ hr (by decide) (by decide) hreg
+
+/-- every error code of BadErrors is an admissible error text -/
+example : ∀ e ∈ SA.Gen.badErrors, ErrOk e := by decide
+
 end SA.DnsResp
+
+#print axioms SA.DnsResp.C10_private_registered
+#print axioms SA.DnsResp.C10_unwrap_undoes_escaping
+#print axioms SA.DnsResp.C10_partial
+#print axioms SA.DnsResp.C10_error_reported_wrap
+#print axioms SA.DnsResp.C10_error_reported_wire
+#print axioms SA.DnsResp.C10_witness_a_residue
+#print axioms SA.DnsResp.C10_witness_aaaa_residue
+#print axioms SA.DnsResp.C10_witness_srv_label
+#print axioms SA.DnsResp.C10_witness_raw_over_names
